@@ -41,13 +41,14 @@ ALLOWED_WRITES_MODULE = {
 }
 
 
-def frame_result(rel):
-    """the frame obligation of one file of the package (path relative to cij/)"""
+STATE_KINDS = ("write", "memo", "global")      # shared or borrowed state is written: a frame condition fails, but whether any RESULT depends on a call history is a run-time matter
+
+
+def frame_findings(rel):
+    """-> (number of functions, hard findings, state findings) of one file of the package (path relative to cij/)"""
     path = os.path.join(core.REPO, "cij", rel)
-    if not os.path.exists(path):
-        return core.unknown("frames", "%s no longer exists" % rel)
     reps = frames.analyse(path)
-    bad = []
+    hard, state = [], []
     for q, r in reps.items():
         for kind, what in r.findings():
             if kind == "ambient" and (rel, q) in ALLOWED_AMBIENT:
@@ -60,11 +61,97 @@ def frame_result(rel):
                 continue
             if kind == "write" and (rel, q) in ALLOWED_WRITES and ("parameter" in what or "in-place" in what or "item assignment" in what):
                 continue
-            bad.append("%s: %s: %s" % (q, kind, what))
-    if bad:
-        return core.refuted("frames", "%s: %s" % (rel, "; ".join(bad[:6])), witness_id="frame:%s:%s" % (rel, bad[0][:60]))
-    return core.proved("frames", "%s: %d functions write nothing reachable from module level / class bodies / mutable defaults, keep no process-wide memo, update no borrowed object in "
-                                 "place, read no ambient state beyond their contract, and iterate no set outside the commuting loops" % (rel, len(reps)))
+            (state if kind in STATE_KINDS else hard).append("%s: %s: %s" % (q, kind, what))
+    return len(reps), hard, state
+
+
+def frame_result(rel):
+    """the frame obligation of one file.  Ambient reads / set iteration outside the contract refute it outright.  State written outside the frame (a module- or class-level
+    container, a memo keyed by a file NAME, an in-place update of a borrowed object) makes the frame condition fail as well, but such state is harmless exactly when no result
+    depends on an earlier call -- which no static rule decides (a memo whose key contains everything the result depends on and whose values callers cannot change is a legitimate
+    optimisation).  Those findings are therefore UNDECIDED here and handed to the history batteries (fall-back of the obligation): a history that changes a result refutes the
+    obligation with that history as the failing input; otherwise it is recorded as not discharged / bounded for this run."""
+    path = os.path.join(core.REPO, "cij", rel)
+    if not os.path.exists(path):
+        return core.unknown("frames", "%s no longer exists" % rel)
+    n, hard, state = frame_findings(rel)
+    if hard:
+        return core.refuted("frames", "%s: %s" % (rel, "; ".join((hard + state)[:6])), witness_id="frame:%s:%s" % (rel, hard[0][:60]))
+    if state:
+        return core.unknown("frames", "%s: state outside the frame: %s" % (rel, "; ".join(state[:6])))
+    return core.proved("frames", "%s: %d functions write nothing reachable from module level / class bodies / mutable defaults, keep no memo of file contents, update no borrowed object in "
+                                 "place, read no ambient state beyond their contract, and iterate no set outside the commuting loops" % (rel, n))
+
+
+# history batteries: native runs of the real code in which a second call / object / calculation collides with the first one on everything a careless cache could be keyed by
+def _battery_shear():
+    import importlib
+    from props import C03
+    shear = importlib.import_module("cij.core.phonon_contribution.shear")
+    for key in [k for k in C03.all_keys() if k.is_shear]:
+        r = C03.native_history(shear, key)
+        if r.get("reproduced"):
+            return dict(r, key=repr(key))
+    return {"reproduced": False}
+
+
+def _battery_voigt():
+    """the same label asked through both algebras in both orders, every spelling twice"""
+    from cij.util import voigt
+    C, E = voigt.ModulusRepresentation, voigt.StrainRepresentation
+    v2s = {1: (1, 1), 2: (2, 2), 3: (3, 3), 4: (2, 3), 5: (1, 3), 6: (1, 2)}
+    for first in ("C", "E"):
+        for I in range(1, 7):
+            for J in range(1, 7):
+                lab = "%d%d" % (I, J)
+                order = ((C, "C"), (E, "E")) if first == "C" else ((E, "E"), (C, "C"))
+                for cls, tag in order:
+                    for spelled in (lab, int(lab)):
+                        try:
+                            got = cls.create(spelled)
+                        except Exception:
+                            got = None
+                        if tag == "C":
+                            want = tuple(sorted((I, J)))
+                            ok = got is not None and tuple(got.voigt) == want
+                        else:
+                            ok = (got is None) if not (I <= 3 and J <= 3) else (got is not None and tuple(got.standard) == tuple(sorted((I, J))))
+                        if not ok:
+                            return {"reproduced": True, "history": "label %r asked as %s after the other algebra saw it" % (spelled, "modulus" if tag == "C" else "strain"), "observed": repr(got)}
+    return {"reproduced": False}
+
+
+def _battery_config():
+    import importlib
+    from props import C16
+    r = C16.apply_default_histories(importlib.import_module("cij.io.config.config"))
+    return {"reproduced": r.status == core.REFUTED, "observed": r.detail[:400]} if r.status != core.PROVED else {"reproduced": False}
+
+
+def _battery_fill():
+    from props import C13
+    r = C13.static_columns()
+    return dict(r.replay or {}, reproduced=True, observed=r.detail[:400]) if r.status == core.REFUTED else {"reproduced": False}
+
+
+HISTORY = {"core/phonon_contribution/shear.py": [_battery_shear], "util/voigt.py": [_battery_voigt], "io/config/config.py": [_battery_config], "util/fill.py": [_battery_fill],
+           "io/traditional/elast_dat.py": [_battery_fill]}
+
+
+def history_fallback(rel):
+    """per-file batteries first, then two colliding calculations interleaved in one process against each alone in a fresh process (contracts/calc_env.interleaving_battery)"""
+    from contracts import calc_env
+    n = 0
+    for b in HISTORY.get(rel, []):
+        r = b()
+        n += 1
+        if r.get("reproduced"):
+            return r
+    r = calc_env.interleaving_battery()
+    if r.get("reproduced"):
+        return r
+    return {"reproduced": False, "evaluations": n + 6, "note": "history batteries agree with the history-free results: %d file-specific, and two colliding synthetic calculations interleaved in one "
+            "process vs each alone in a fresh process" % n}
 
 
 def anchored_python_files(pid):
@@ -83,7 +170,8 @@ def add(s, pid, extra=()):
     """one frame obligation per Python file the property is anchored in"""
     files = list(dict.fromkeys(anchored_python_files(pid) + list(extra)))
     for rel in files:
-        s.oblige("%s.frame[%s]" % (pid, rel), lambda rel=rel: frame_result(rel), ["cij/" + rel + " (frame conditions of every function)"], kind="frame")
+        s.oblige("%s.frame[%s]" % (pid, rel), lambda rel=rel: frame_result(rel), ["cij/" + rel + " (frame conditions of every function)"], kind="frame",
+                 fallback=lambda rel=rel: history_fallback(rel))
     if files:
         s.assume("E5: the frame analysis is conservative but unsound for setattr / exec / C extensions / aliasing it does not track; LazyProperty caching on the instance "
                  "and logging are not shared state")
